@@ -115,6 +115,34 @@ func Solve(u *Unit, o *Obligation, dir string, timeout time.Duration, idx int) {
 		return
 	}
 	base := filepath.Join(dir, fmt.Sprintf("%s_%d", sanitize(o.Name), idx))
+	// stage 1: one fast solver alone (most obligations are discharged in well under a second)
+	{
+		quick := 3 * time.Second
+		if quick > timeout {
+			quick = timeout
+		}
+		sp := solverSpecs(quick)[0]
+		file := base + ".stage1.smt2"
+		if err := os.WriteFile(file, []byte(sp.Pre+q), 0o644); err == nil {
+			c1, cancel1 := context.WithTimeout(context.Background(), quick+time.Second)
+			r := runSolver(c1, sp, file)
+			cancel1()
+			os.Remove(file)
+			if r.answer == "unsat" {
+				o.Solver, o.TimeS = r.solver, r.dur.Seconds()
+				o.Status = "proved"
+				if o.Vacuity {
+					o.Status = "failed"
+					o.Output = "vacuity probe is unsatisfiable: assumptions are contradictory"
+				}
+				return
+			}
+			if r.answer == "sat" && o.Vacuity {
+				o.Solver, o.TimeS, o.Status = r.solver, r.dur.Seconds(), "proved"
+				return
+			}
+		}
+	}
 	ctx, cancel := context.WithTimeout(context.Background(), timeout+2*time.Second)
 	defer cancel()
 	specs := solverSpecs(timeout)
@@ -161,8 +189,6 @@ func Solve(u *Unit, o *Obligation, dir string, timeout time.Duration, idx int) {
 			if r.answer == "sat" {
 				rc := r
 				candidate = &rc
-				// the full queries get a short grace period to confirm or refute
-				go func() { time.Sleep(7 * time.Second); cancel() }()
 			}
 			continue
 		}
